@@ -290,6 +290,8 @@ def gen_map_scripts(tier, seed, variant):
     out = [gen_map.make_script(rng, f"m{seed}_{i}") for i in range(n)]
     # collision runs with tombstones inside full groups and probes beyond them
     out += [gen_map.make_run_script(rng, f"u{seed}_{i}") for i in range(n // 2)]
+    out += [gen_map.make_rehash_script(rng, f"ur{seed}_{i}") for i in range(n // 3)]
+    out += [gen_map.make_stale_slot_script(rng, f"us{seed}_{i}", gw=(8 if "generic" in variant else 16)) for i in range(n // 6)]
     return "".join(out)
 
 def check_c01(run):
@@ -425,7 +427,11 @@ def check_c18(run):
                 continue
             cross_steps += 1
             op = a[key][0]
-            if op in ("capacity", "allocsize", "drain", "extractif"):
+            # which elements a PARTLY consumed drain / extract_if / owning iterator yields depends on the
+            # iteration order, which is layout-level (Properties/C18o.v: `state_det`, `out_sim`); capacity
+            # and allocation_size depend on the group width
+            if op in ("capacity", "allocsize", "drain", "extractif", "intoiter", "intokeys", "intovalues", "intoiterfold", "intokeysfold",
+                      "intovaluesfold", "drainfold", "forget_drain", "forget_iter", "forget_extractif"):
                 ra, rb = "", ""
             else:
                 ra, rb = a[key][1], b[key][1]
@@ -627,6 +633,9 @@ def gen_fault_scripts(tier, seed, variant):
     # the (callback class x operation) matrix: every pair in every run
     for i in range(n // 2):
         out.append(gen_map.make_fault_matrix_script(rng, f"fm{seed}_{i}"))
+    # the k-th Hash call panics inside an in-place rehash with swaps (every insertion API)
+    for i in range(n // 3):
+        out.append(gen_map.make_rehash_script(rng, f"fr{seed}_{i}", kind=rng.choice(["map-drop", "map-plain"]), arm="hashpanic_nth"))
     return "".join(out)
 
 def arm_script(rng, blk, p):
@@ -661,6 +670,10 @@ def gen_calldep_scripts(tier, seed, variant):
     # ... and inconsistent inside a window around the EMPTY bytes, insertions through the entry path
     for i in range(n // 2):
         out.append(gen_map.make_window_script(rng, f"xw{seed}_{i}"))
+    # ... and the in-place rehash with swaps under a hasher that has just turned inconsistent
+    for i in range(n // 2):
+        out.append(gen_map.make_rehash_script(rng, f"xr{seed}_{i}", table=(i % 4 == 3), switch_rule=rng.choice(
+            ["hashrule calldep", "hashrule calldep_near", "hashrule calldep_near", "hashrule calldep;eqrule calldep", "eqrule calldep"])))
     return "".join(out)
 
 def gen_table_scripts(tier, seed, variant):
@@ -669,6 +682,7 @@ def gen_table_scripts(tier, seed, variant):
     out = [gen_table.make_script(rng, f"t{seed}_{i}") for i in range(n)]
     out += [gen_table.make_run_script(rng, f"v{seed}_{i}") for i in range(n // 2)]
     out += [gen_table.make_last_script(rng, f"vl{seed}_{i}") for i in range(n // 2)]
+    out += [gen_map.make_rehash_script(rng, f"vr{seed}_{i}", table=True) for i in range(n)]
     return "".join(out)
 
 def gen_layout_scripts(tier, seed, variant):
@@ -677,7 +691,7 @@ def gen_layout_scripts(tier, seed, variant):
     rng = random.Random(seed)
     n = 56 if tier == "quick" else 180
     out = []
-    kinds = ["table-1", "table-2", "table-zst", "table-zst64", "table-200", "table-a64", "table-drop", "table-plain"]
+    kinds = ["table-1", "table-2", "table-3", "table-6", "table-12", "table-zst", "table-zst64", "table-200", "table-a64", "table-drop", "table-plain"]
     for i in range(n):
         r = i % 4
         if r == 0:
@@ -686,12 +700,14 @@ def gen_layout_scripts(tier, seed, variant):
             out.append(gen_map.make_script(rng, f"y{seed}_{i}", calldep=rng.choice(["hash", "both"])))
         else:
             out.append(gen_table.make_script(rng, f"y{seed}_{i}", kind=rng.choice(kinds)))
+    for i in range(n // 4):
+        out.append(gen_map.make_rehash_script(rng, f"yr{seed}_{i}", table=True, kind=rng.choice(["table-6", "table-12", "table-200", "table-a64", "table-drop", "table-plain"])))
     return "".join(out)
 
 def gen_clone_scripts(tier, seed, variant):
     rng = random.Random(seed)
     n = 48 if tier == "quick" else 160
-    return "".join(gen_map.make_script(rng, f"c{seed}_{i}", clone_ops=True, kind=rng.choice(["map-drop", "map-drop", "map-plain"])) for i in range(n))
+    return "".join(gen_map.make_script(rng, f"c{seed}_{i}", clone_ops=True, kind=rng.choice(["map-drop", "map-drop", "map-plain", "map-nc"])) for i in range(n))
 
 def check_c02(run):
     return script_property(
@@ -715,9 +731,9 @@ def gen_release_fault_scripts(tier, seed, variant):
 
 def check_c03(run):
     return script_property(
-        run, lambda tier, seed, v: gen_map_scripts(tier, seed, v) + gen_table_scripts(tier, seed + 1, v) + gen_clone_scripts(tier, seed + 2, v) + gen_release_fault_scripts(tier, seed + 3, v),
+        run, lambda tier, seed, v: gen_map_scripts(tier, seed, v) + gen_table_scripts(tier, seed + 1, v) + gen_clone_scripts(tier, seed + 2, v) + gen_release_fault_scripts(tier, seed + 3, v) + gen_par_scripts(tier, seed + 4, v),
         relevant=lambda f: f.kind == "CRASH" or (f.kind == "H-FAIL" and any(k in f.text for k in LEAKY)),
-        rule="HashMap / HashTable / clone-family histories with drop-tracked elements (every key and value object carries a serial number in a registry) and the ledger allocator: after EVERY operation each object ever created must be stored in a collection, held by the caller, or dropped exactly once; a second drop of a serial, a stored object that was already dropped, a release with a different layout than the request, and anything still alive or allocated after the collections are dropped are findings; leaving routes exercised: remove, overwrite, clear, retain, extract_if, drain (0, some, all consumed), into_iter / into_keys / into_values (0, some, all consumed; also on emptied but still allocated collections), shrink, clone_from into occupied targets, drop; interrupted operations (the k-th Clone or Hash call panics, a refused allocation) must not lose or duplicate an object either; allocator events are also compared in order with the extracted model")
+        rule="HashMap / HashTable / clone-family histories with drop-tracked elements (every key and value object carries a serial number in a registry) and the ledger allocator: after EVERY operation each object ever created must be stored in a collection, held by the caller, or dropped exactly once; a second drop of a serial, a stored object that was already dropped, a release with a different layout than the request, and anything still alive or allocated after the collections are dropped are findings; leaving routes exercised: remove, overwrite, clear, retain, extract_if, drain (0, some, all consumed), into_iter / into_keys / into_values (0, some, all consumed; also on emptied but still allocated collections), shrink, clone_from into occupied targets, drop; interrupted operations (the k-th Clone or Hash call panics, a refused allocation) must not lose or duplicate an object either; allocator events are also compared in order with the extracted model; the owning iterators are compared step by step with Model/OwnIter.v (yielded elements, destructor and release events in order, incl. fold / for_each consumers that panic part-way and leaked iterators); the parallel owning iterators (into_par_iter, par_drain over maps, sets and tables, incl. short-circuiting consumers) run under the same registry")
 
 def check_c04(run):
     return script_property(
@@ -770,11 +786,13 @@ def gen_capacity_scripts(tier, seed, variant):
     out = []
     for i in range(n):
         if i % 3 == 2:
-            out.append(gen_table.make_script(rng, f"k{seed}_{i}", kind=rng.choice(["table-drop", "table-plain", "table-1", "table-2", "table-200", "table-zst", "table-zst64"])))
+            out.append(gen_table.make_script(rng, f"k{seed}_{i}", kind=rng.choice(["table-drop", "table-plain", "table-1", "table-2", "table-3", "table-6", "table-12", "table-3", "table-6", "table-200", "table-zst", "table-zst64"])))
         else:
             out.append(gen_map.make_script(rng, f"k{seed}_{i}"))
     for i in range(n):
         out.append(gen_map.make_shrink_script(rng, f"ks{seed}_{i}"))
+    for i in range(n // 2):
+        out.append(gen_map.make_rehash_script(rng, f"kr{seed}_{i}", table=(i % 3 == 2), fresh=rng.choice(["reserve", "tryreserve", "insert", "any"])))
     return "".join(out)
 
 def check_c08(run):
@@ -789,7 +807,7 @@ def gen_tryreserve_scripts(tier, seed, variant):
     out = []
     for i in range(n):
         if i % 4 == 3:
-            blk = gen_table.make_script(rng, f"r{seed}_{i}", kind=rng.choice(["table-zst", "table-zst64", "table-1", "table-200", "table-drop"]))
+            blk = gen_table.make_script(rng, f"r{seed}_{i}", kind=rng.choice(["table-zst", "table-zst64", "table-1", "table-3", "table-6", "table-200", "table-drop"]))
             lines = blk.rstrip("\n").split("\n")
             res = []
             for l in lines:
@@ -801,6 +819,8 @@ def gen_tryreserve_scripts(tier, seed, variant):
             out.append("\n".join(res) + "\n")
         else:
             out.append(gen_map.make_script(rng, f"r{seed}_{i}", faults=0.3, arms=["refuse_nth"]))
+    for i in range(n // 3):
+        out.append(gen_map.make_rehash_script(rng, f"rr{seed}_{i}", table=(i % 3 == 2), fresh="tryreserve"))
     return "".join(out)
 
 def c12_layout_probe(run):
@@ -855,7 +875,10 @@ def gen_churn_scripts(tier, seed, variant):
     rng = random.Random(seed)
     n = 48 if tier == "quick" else 120
     ln = None if tier == "quick" else 3000
-    return "".join(gen_map.make_churn_script(rng, f"g{seed}_{i}", table=(i % 3 == 2), length=ln) for i in range(n))
+    out = "".join(gen_map.make_churn_script(rng, f"g{seed}_{i}", table=(i % 3 == 2), length=ln) for i in range(n))
+    # churn that is reclaimed IN PLACE: exact fill, removals leaving tombstones, new keys until the table rehashes
+    out += "".join(gen_map.make_rehash_script(rng, f"gr{seed}_{i}", table=(i % 3 == 2), fresh=rng.choice(["insert", "entry_or_insert", "insert"])) for i in range(n // 2))
+    return out
 
 def check_c13(run):
     return script_property(
@@ -897,6 +920,13 @@ def gen_entry_scripts(tier, seed, variant):
                                        f"raw_replace {k} {stamp} some {rng.randrange(500)}", f"raw_replace {k} {stamp} none 0",
                                        f"raw_and_replace {k} {stamp} {rng.choice(['some', 'none'])} {rng.randrange(500)}"]))
         out.append("\n".join(res) + "\n")
+    # entry-style insertions of new keys into tables full of tombstones (the reserve inside rehashes in place)
+    for i in range(n // 2):
+        out.append(gen_map.make_rehash_script(rng, f"er{seed}_{i}", fresh=rng.choice(["entry_or_insert", "entry_insert", "tryinsert", "entry_and_modify",
+                   "rentry_or_insert", "rentry_insert", "rentry_drop", "raw_or_insert", "raw_insert", "eref_or_insert", "eref_insert", "any"])))
+    gw = 8 if "generic" in variant else 16
+    for i in range(n // 3):
+        out.append(gen_map.make_stale_slot_script(rng, f"es{seed}_{i}", gw=gw))
     return "".join(out) + gen_set_scripts(tier, seed + 7, variant)
 
 def check_c14(run):
@@ -918,6 +948,10 @@ def gen_many_scripts(tier, seed, variant):
             out.append(gen_map.make_script(rng, f"q{seed}_{i}", many=True))
     for i in range(n):
         out.append(gen_table.make_many_script(rng, f"qm{seed}_{i}"))
+    # requests whose hashes differ although they resolve to one entry (a borrowed form that hashes
+    # differently, a Hash that is not a function of the key): still no two &mut to one entry
+    for i in range(n // 2):
+        out.append(gen_map.make_script(rng, f"qx{seed}_{i}", calldep="hash_near", many=True, nkeys=rng.choice([4, 6, 12]), length=60))
     return "".join(out)
 
 def check_c15(run):
